@@ -131,3 +131,13 @@ class FixedClock:
     @staticmethod
     def monotonic():
         return 1000.0
+
+
+def internal(obj, name):
+    """Read an implementation detail of nauyaca that a harness needs (private attribute named in the
+    property's anchors).  If a refactoring renamed it, that is a machinery problem (exit 3), not a
+    verdict about nauyaca."""
+    try:
+        return getattr(obj, name)
+    except AttributeError:
+        raise HarnessError("nauyaca internal %r.%s is gone: harness needs updating" % (type(obj).__name__, name))
